@@ -17,8 +17,15 @@ def rand_argv(r):
 	ms = r.choice((6700, 6700, 6900, 16700))
 	bind = r.choice(("127.0.0.1", "127.0.0.1", "0.0.0.0"))
 	argv = ["-b", bind, "-P", str(bts), "-p", str(ms)]
-	plan = [("BTS", "127.0.0.1", bts, 0), ("MS", "127.0.0.1", ms, 0)]
-	parents = [("127.0.0.1", bts), ("127.0.0.1", ms)]
+	# the two L1 peers need not live at the same address
+	bts_addr = r.choice(("127.0.0.1", "127.0.0.1", "127.0.0.5"))
+	ms_addr = r.choice(("127.0.0.1", "127.0.0.1", "127.0.0.2"))
+	if bts_addr != "127.0.0.1" or r.random() < 0.2:
+		argv += ["-R", bts_addr]
+	if ms_addr != "127.0.0.1" or r.random() < 0.2:
+		argv += ["-r", ms_addr]
+	plan = [("BTS", bts_addr, bts, 0), ("MS", ms_addr, ms, 0)]
+	parents = [(bts_addr, bts), (ms_addr, ms)]
 	nchild = {}
 	for k in range(r.randint(0, 4)):
 		if r.random() < 0.6:
@@ -30,7 +37,7 @@ def rand_argv(r):
 			d = "%s:%d/%d" % (addr, port, idx)
 		else:
 			port = 7700 + 1000 * (len(parents) - 2)
-			addr = "127.0.0.1"
+			addr = r.choice(("127.0.0.1", "127.0.0.1", "127.0.0.3"))
 			idx = 0
 			parents.append((addr, port))
 			d = "%s:%d" % (addr, port) if r.random() < .5 else "%s:%d/0" % (addr, port)
